@@ -334,3 +334,66 @@ Definition p_inverse (tolexp : Z) (sc : dy) (x WWinvx WinvWx : list dy) : N :=
 Definition p_transpose (tolexp : Z) (Wx y x WTy : list dy) : N :=
   let sc := dadd (ddot (dvabs Wx) (dvabs y)) (ddot (dvabs x) (dvabs WTy)) in
   ofb (dclose (dpow2 tolexp) sc (ddot Wx y) (ddot x WTy)).
+
+(** ** PSD cone: per-call exact validation (the scaling rests on LAPACK chol / svd / eig) *)
+Definition dmat := list (list dy).   (* list of rows *)
+Definition dget (M : dmat) (r c : nat) : dy := nth c (nth r M []) d0.
+Definition dmk (n : nat) (f : nat -> nat -> dy) : dmat :=
+  map (fun r => map (fun c => f r c) (seq 0 n)) (seq 0 n).
+(** column-major storage of an n x n matrix *)
+Definition dcolmajor (n : nat) (data : list dy) : dmat := dmk n (fun r c => nth (r + n * c) data d0).
+Definition dtrans (n : nat) (M : dmat) : dmat := dmk n (fun r c => dget M c r).
+Definition dmm (n : nat) (A B : dmat) : dmat :=
+  dmk n (fun r c => dsum (map (fun k => dmul (dget A r k) (dget B k c)) (seq 0 n))).
+Definition dmabs (M : dmat) : dmat := map (map dabs) M.
+Definition dmmax (M : dmat) : dy := fold_left (fun m row => dmax m (dnorminf row)) M d0.
+Definition ddiag (n : nat) (l : list dy) : dmat := dmk n (fun r c => if Nat.eqb r c then nth r l d0 else d0).
+Definition dmclose (tol sc : dy) (A B : dmat) : bool :=
+  Nat.eqb (length A) (length B) &&
+  forallb (fun p => dallclose tol sc (fst p) (snd p)) (combine A B).
+(** RᵀZR = Λ = R⁻¹SR⁻ᵀ,  R R⁻¹ = I = R⁻¹ R, λ > 0; tolerance relative to |R|ᵀ|Z||R| etc. *)
+Definition p_psd_nt (tolexp : Z) (n : nat) (Rcm Rinvcm lam : list dy) (S Zm : dmat) : N :=
+  let tol := dpow2 tolexp in
+  let R := dcolmajor n Rcm in let Ri := dcolmajor n Rinvcm in
+  let L := ddiag n lam in
+  let t1 := dmm n (dmm n (dtrans n R) Zm) R in
+  let s1 := dmmax (dmm n (dmm n (dtrans n (dmabs R)) (dmabs Zm)) (dmabs R)) in
+  let t2 := dmm n (dmm n Ri S) (dtrans n Ri) in
+  let s2 := dmmax (dmm n (dmm n (dmabs Ri) (dmabs S)) (dtrans n (dmabs Ri))) in
+  let I := ddiag n (repeat d1 n) in
+  let s3 := dmmax (dmm n (dmabs R) (dmabs Ri)) in
+  ofb (Nat.eqb (length lam) n && forallb (fun l => dltb d0 l) lam &&
+       dmclose tol (dadd s1 (dnorminf lam)) t1 L &&
+       dmclose tol (dadd s2 (dnorminf lam)) t2 L &&
+       dmclose tol (dadd s3 d1) (dmm n R Ri) I && dmclose tol (dadd s3 d1) (dmm n Ri R) I).
+(** two Rust vectors agree with an expected vector *)
+Definition p_close2 (tolexp : Z) (sc : dy) (expected a b : list dy) : N :=
+  ofb (dallclose (dpow2 tolexp) sc a expected && dallclose (dpow2 tolexp) sc b expected).
+
+(** exact positive-definiteness of a symmetric dyadic matrix, division free:
+    [[a bᵀ][b C]] ≻ 0  iff  a > 0 and a·C − b bᵀ ≻ 0 *)
+Fixpoint dpd (fuel : nat) (M : dmat) : bool :=
+  match fuel with
+  | O => false
+  | S f =>
+      match M with
+      | [] => true
+      | [] :: _ => false
+      | (a :: b) :: rest =>
+          dltb d0 a &&
+          dpd f (map (fun row => match row with
+                                 | bi :: ci => dmap2 (fun cij bj => dsub (dmul a cij) (dmul bi bj)) ci b
+                                 | [] => []
+                                 end) rest)
+      end
+  end.
+Definition dmaxpy (n : nat) (X : dmat) (t : dy) (Y : dmat) (shift : dy) : dmat :=
+  dmk n (fun r c => dadd (dadd (dget X r c) (dmul t (dget Y r c))) (if Nat.eqb r c then shift else d0)).
+(** PSD step length: 0 <= r <= αmax; X + r·dX + τI ≻ 0; r = αmax or X + r(1+2^-10)·dX + τI is
+    not positive definite, with τ = 2^tolexp · n · (max|X| + r·max|dX|) *)
+Definition p_psd_step (tolexp : Z) (n : nat) (X dX : dmat) (amax r : dy) : N :=
+  let tau t := dmul (dmul (dpow2 tolexp) (dofZ (Z.of_nat n))) (dadd (dmmax X) (dmul t (dmmax dX))) in
+  let r' := dadd r (dshift r (-10)) in
+  let safe := dpd (S n) (dmaxpy n X r dX (tau r)) in
+  let tight := deqb r amax || negb (dpd (S n) (dmaxpy n X r' dX (tau r'))) in
+  ofb (dleb d0 r && dleb r amax && safe && tight).
